@@ -83,4 +83,27 @@ theorem pool_wf : Pool.WellFormed poolParams := by
 
 theorem new_message_resets : Generated.newMessageResets = ["m.Body=m.bbuf", "m.Header=m.hbuf"] := by decide
 
+/-- the byte-level code of the transports, statement by statement, is the code the wire model was written against:
+    `conn.Recv` reads the 64-bit length, refuses before allocating, allocates exactly `sz`, fills the body with one
+    ReadFull and frees the message when that fails; `conn.Send` writes length, header, body with one gathered write and
+    releases the message only after the write succeeded (on failure it stays with the caller); the handshake writes
+    then reads one header and checks zero / 'S' / 'P' / reserved, version, protocol in that order, closing the
+    connection on every failure; the ipc variants differ by the leading type byte only; the WebSocket pipe sends header
+    and body as one binary message and frees only after a successful write; inproc copies header and body into a new
+    message for the receiver; the core pipe closes itself on a transport error and stamps received messages with
+    their pipe.  Any edit to these functions re-opens this obligation. -/
+theorem transport_shapes : Generated.transportShapes = [
+  ("transport:conn.Recv", ["var sz int64", "var err error", "var msg *Message", "if err=binary.Read(p.c,binary.BigEndian,&sz); err!=nil", ">return nil,err", "if sz<0||(p.maxrx>0&&sz>int64(p.maxrx))", ">return nil,mangos.ErrTooLong", "msg=mangos.NewMessage(int(sz))", "msg.Body=msg.Body[0:sz]", "if _,err=io.ReadFull(p.c,msg.Body); err!=nil", ">msg.Free()", ">return nil,err", "return msg,nil"]),
+  ("transport:conn.Send", ["var buff=net.Buffers{…}", "l:=uint64(len(msg.Header)+len(msg.Body))", "lbyte:=make([]byte,8)", "binary.BigEndian.PutUint64(lbyte,l)", "buff=append(buff,lbyte,msg.Header,msg.Body)", "if _,err:=buff.WriteTo(p.c); err!=nil", ">return err", "msg.Free()", "return nil"]),
+  ("transport:conn.handshake", ["var err error", "h:=connHeader{…}", "if err=binary.Write(p.c,binary.BigEndian,&h); err!=nil", ">return err", "if err=binary.Read(p.c,binary.BigEndian,&h); err!=nil", ">_=p.c.Close()", ">return err", "if h.Zero!=0||h.S!='S'||h.P!='P'||h.Reserved!=0", ">_=p.c.Close()", ">return mangos.ErrBadHeader", "if h.Version!=0", ">_=p.c.Close()", ">return mangos.ErrBadVersion", "if h.Proto!=p.proto.Peer", ">_=p.c.Close()", ">return mangos.ErrBadProto", "if tc,ok:=p.c.(*tls.Conn); ok", ">p.options[mangos.OptionTLSConnState]=tc.ConnectionState()", "return nil"]),
+  ("transport:connipc.Recv", ["var sz int64", "var err error", "var msg *Message", "var one []byte", "if _,err=p.c.Read(one[:]); err!=nil", ">return nil,err", "if err=binary.Read(p.c,binary.BigEndian,&sz); err!=nil", ">return nil,err", "if sz<0||(p.maxrx>0&&sz>int64(p.maxrx))", ">return nil,mangos.ErrTooLong", "msg=mangos.NewMessage(int(sz))", "msg.Body=msg.Body[0:sz]", "if _,err=io.ReadFull(p.c,msg.Body); err!=nil", ">msg.Free()", ">return nil,err", "return msg,nil"]),
+  ("transport:connipc.Send", ["var buff=net.Buffers{…}", "l:=uint64(len(msg.Header)+len(msg.Body))", "lbyte:=make([]byte,9)", "lbyte[0]=1", "binary.BigEndian.PutUint64(lbyte[1:],l)", "buff=append(buff,lbyte,msg.Header,msg.Body)", "if _,err:=buff.WriteTo(p.c); err!=nil", ">return err", "msg.Free()", "return nil"]),
+  ("transport/ws:wsPipe.Recv", ["_,body,err:=w.ws.ReadMessage()", "if err!=nil", ">return nil,err", "msg:=mangos.NewMessage(0)", "msg.Body=body", "return msg,nil"]),
+  ("transport/ws:wsPipe.Send", ["var buf []byte", "if len(m.Header)>0", ">buf=make([]byte,0,len(m.Header)+len(m.Body))", ">buf=append(buf,m.Header)", ">buf=append(buf,m.Body)", "else", ">buf=m.Body", "if err:=w.ws.WriteMessage(w.dtype,buf); err!=nil", ">return err", "m.Free()", "return nil"]),
+  ("transport/inproc:inproc.Recv", ["select", ">case m:=<-p.rq", ">>return m,nil", ">case <-p.closeq", ">>return nil,mangos.ErrClosed", ">case <-p.peer.closeq", ">>return nil,mangos.ErrClosed"]),
+  ("transport/inproc:inproc.Send", ["nmsg:=mangos.NewMessage(len(m.Header)+len(m.Body))", "nmsg.Body=append(nmsg.Body,m.Header)", "nmsg.Body=append(nmsg.Body,m.Body)", "select", ">case p.wq<-nmsg", ">>return nil", ">case <-p.closeq", ">>nmsg.Free()", ">>return mangos.ErrClosed", ">case <-p.peer.closeq", ">>nmsg.Free()", ">>return mangos.ErrClosed"]),
+  ("internal/core:pipe.SendMsg", ["if err:=p.p.Send(msg); err!=nil", ">_=p.Close()", ">return err", "return nil"]),
+  ("internal/core:pipe.RecvMsg", ["msg,err:=p.p.Recv()", "if err!=nil", ">_=p.Close()", ">return nil", "msg.Pipe=p", "return msg"])
+] := by decide
+
 end Obl.Wire
